@@ -107,7 +107,7 @@ def print_assumptions(vfile):
         if b.startswith("Closed"):
             res[nm] = []
         else:
-            ax = re.findall(r"^([A-Za-z0-9_'.]+)\s*:", b, flags=re.M)
+            ax = [x for x in re.findall(r"^([A-Za-z0-9_'.]+)\s*:", b, flags=re.M) if x != 'Axioms']
             res[nm] = sorted(set(ax))
     return res, out
 
